@@ -507,6 +507,9 @@ func ruleL17(p *Prog, r *Report) {
 							}
 						}
 					}
+					if cc, ok := y.(*ssa.Call); ok && isDropLastHelper(p, cc.Call.StaticCallee()) {
+						return true
+					}
 					if _, ok := y.(*ssa.Return); ok {
 						if c, _ := classifyReturn(y.(*ssa.Return)); c != retError {
 							escape = y
@@ -706,4 +709,39 @@ func sizeIsSumOverList(sz, list ssa.Value) (bool, string) {
 		return false, "the element whose size is added is not the one appended in that iteration"
 	}
 	return false, "the list is neither filled index by index nor by append in the accumulating loop"
+}
+
+// isDropLastHelper: g(list) returns list[:len(list)-1] on every path (a private "drop the last slab" helper).
+func isDropLastHelper(p *Prog, g *ssa.Function) bool {
+	if g == nil || g.Pkg != p.RootSSA || len(g.Blocks) == 0 || len(g.Params) == 0 || g.Signature.Results().Len() != 1 {
+		return false
+	}
+	rets := returnsOf(g)
+	if len(rets) == 0 {
+		return false
+	}
+	for _, ret := range rets {
+		sl, ok := canon(ret.Results[0]).(*ssa.Slice)
+		if !ok || sl.Low != nil || sl.High == nil {
+			return false
+		}
+		prm, ok := canon(sl.X).(*ssa.Parameter)
+		if !ok {
+			return false
+		}
+		if st, ok := prm.Type().Underlying().(*types.Slice); !ok || !isSlabT(st.Elem()) {
+			return false
+		}
+		bo, ok := canonConv(sl.High).(*ssa.BinOp)
+		if !ok || bo.Op != token.SUB {
+			return false
+		}
+		if k, ok := constInt(bo.Y); !ok || k != 1 {
+			return false
+		}
+		if a, isLen := isLenOf(bo.X); !isLen || canon(a) != ssa.Value(prm) {
+			return false
+		}
+	}
+	return true
 }
